@@ -215,6 +215,9 @@ func (in *Interp) checkSat(extra *Term) SatResult {
 	in.queries++
 	if res == Unknown {
 		in.path.unknowns = append(in.path.unknowns, msg)
+		if d := os.Getenv("VERIF_DUMP_VIOL"); d != "" && extra != nil {
+			in.solver.DumpQuery(extra, fmt.Sprintf("%s/unknown-%d-%d.smt2", d, len(in.path.decisions), in.queries))
+		}
 	}
 	if res == Sat {
 		in.lastModel = model
@@ -432,6 +435,32 @@ func (in *Interp) assume(c *Term) {
 	}
 }
 
+// definitelyFeasible is the test used before a violation is reported: only a path condition the solver has shown
+// satisfiable counts (incremental solver, then one-shot solvers with a longer limit). "unknown" makes the run
+// inconclusive instead of producing a violation on a path that may not exist.
+func (in *Interp) definitelyFeasible() bool {
+	if in.path.modelOK || len(in.path.pc) == 0 {
+		return in.feasible()
+	}
+	r := in.checkSat(nil)
+	if r == Sat {
+		in.path.model, in.path.modelOK = in.lastModel, true
+		return true
+	}
+	if r == Unknown {
+		r = in.solver.Resolve(in.tc.Bool(true), 120)
+		if r == Sat {
+			return true
+		}
+		if r == Unknown {
+			in.path.inexact = true
+			in.path.unknowns = append(in.path.unknowns, "feasibility of a violating path: solver unknown")
+			in.unknownAsserts++
+		}
+	}
+	return false
+}
+
 // feasible reports whether the current path condition is satisfiable.
 func (in *Interp) feasible() bool {
 	if in.path.modelOK {
@@ -500,11 +529,12 @@ func (in *Interp) assertTerm(c *Term, msg, site string) {
 	}
 	nc := in.tc.Not(c)
 	if c.IsFalse() {
-		if in.feasible() {
+		if in.definitelyFeasible() {
 			in.ensureModel()
 			in.report("assert", msg, site, in.path.model)
+			panic(pathEnd{EndViolation, msg})
 		}
-		panic(pathEnd{EndViolation, msg})
+		panic(pathEnd{EndInfeasible, "assertion fails only on an infeasible (or undecided) path: " + msg})
 	}
 	if v, ok := in.evalModel(nc); ok && v == 1 {
 		in.report("assert", msg, site, in.path.model)
@@ -516,6 +546,9 @@ func (in *Interp) assertTerm(c *Term, msg, site string) {
 		}
 		switch r {
 		case Sat:
+			if d := os.Getenv("VERIF_DUMP_VIOL"); d != "" {
+				in.solver.DumpQuery(nc, fmt.Sprintf("%s/viol-%d.smt2", d, len(in.path.decisions)))
+			}
 			in.report("assert", msg, site, in.lastModel)
 		case Unknown:
 			// second opinion from fresh one-shot solvers with a longer limit
